@@ -405,7 +405,7 @@ def run(ctx):
         _run(ctx)
     finally:
         # numeric kernels this property's formulas rest on, pinned as canonical expression trees
-        check_kernels(ctx, "C04.K", ['calc_value'])
+        check_kernels(ctx, "C04.K", ['calc_value', 'health-components', 'calc_weighted_value'])
         from .kernels import check_leaves
         check_leaves(ctx, "C04.K", ['emode.entry_is_empty', 'emode.has_entries', 'emode.find_with_tag'])
 
@@ -474,3 +474,14 @@ def run(ctx):
         _run_c04(ctx)
     finally:
         _reconcile_content(ctx)
+
+
+_run_pre_scan = run
+
+
+def run(ctx):
+    try:
+        _run_pre_scan(ctx)
+    finally:
+        for f in ctx.prog.find_fns({"name": "get_account_health_components", "crate": "marginfi", "self_adt": "RiskEngine"}):
+            check_full_scan(ctx, "C04.R4", "full-scan/get_account_health_components", f, r"p1\.bank_accounts_with_price", "the health computation sums over every active balance of the account")
